@@ -664,6 +664,37 @@ pub fn shell_case(label: &str, tier: &str, seed: u64, k: u64, n: usize) -> Case 
     c
 }
 
+/// Wedge input: a few ordinary generators in a cubic box near the origin plus one pair `d` box widths apart
+/// (1e-6 <= d <= 1e-5; at 3e-7 one input in 90 000 panicked on the unchanged tree, finding F5): every common neighbour of the pair has two faces that are parallel within ~d/distance.
+pub fn wedge_case(label: &str, tier: &str, seed: u64, k: u64) -> Case {
+    let mut g = Rng::stream(&format!("{label}wedge"), &[seed, k]);
+    let l = *g.pick(&[1., 1., 1e-3, 1e3]);
+    let width = DVec3::splat(l);
+    let anchor = DVec3::from_array(*g.pick(&[[0., 0., 0.], [-0.5, -0.5, -0.5]])) * l;
+    let n = 4 + g.below(27);
+    let mut pts: Vec<DVec3> = (0..n).map(|_| anchor + width * (DVec3::new(g.f(), g.f(), g.f()) * 0.9 + 0.05)).collect();
+    let d = *g.pick(&[1e-5, 3e-6, 1e-6]);
+    let mut dir = DVec3::new(g.gauss(), g.gauss(), g.gauss());
+    if dir.length() < 1e-3 {
+        dir = DVec3::ONE;
+    }
+    let j = g.below(n);
+    let q = pts[j] + dir / dir.length() * d * l;
+    pts.push(q);
+    let mut c = Case {
+        family: "wedge".into(),
+        dim: 3,
+        periodic: g.bool(),
+        anchor,
+        width,
+        pts,
+        mask: None,
+        origin: format!("{label}wedge/{tier}/seed{seed}/case{k}"),
+    };
+    c.dedup();
+    c
+}
+
 /// Generate one case of an explicit family (used for the corpus and the hostile exploration).
 pub fn gen_family_case(label: &str, family: &str, seed: u64, k: u64, dim: usize, periodic: bool, n: usize) -> Case {
     gen_family_case_in(label, family, seed, k, dim, periodic, n, BoxKind::Random)
